@@ -64,15 +64,19 @@ type edit struct {
 }
 
 func main() {
-	repo := flag.String("repo", "/repo", "repository root")
+	repo := flag.String("repo", "/repo", "repository root (the path the module replace directive points to)")
+	srcTree := flag.String("src", "", "read the sources from this tree instead (an edited copy of the repository); every file is mapped onto -repo")
 	out := flag.String("out", "", "output directory")
 	flag.Parse()
 	if *out == "" {
 		fmt.Fprintln(os.Stderr, "rewrite: -out required")
 		os.Exit(2)
 	}
+	if *srcTree == "" {
+		*srcTree = *repo
+	}
 
-	pkgdir := filepath.Join(*repo, "uhppote")
+	pkgdir := filepath.Join(*srcTree, "uhppote")
 	files, err := filepath.Glob(filepath.Join(pkgdir, "*.go"))
 	if err != nil || len(files) == 0 {
 		fmt.Fprintf(os.Stderr, "rewrite: no sources in %s (%v)\n", pkgdir, err)
@@ -103,7 +107,11 @@ func main() {
 			fmt.Fprintln(os.Stderr, "rewrite:", err)
 			os.Exit(2)
 		}
+		target := filepath.Join(*repo, "uhppote", filepath.Base(f))
 		if n == 0 {
+			if *srcTree != *repo {
+				overlay[target] = f
+			}
 			continue
 		}
 		dst := filepath.Join(srcdir, filepath.Base(f))
@@ -111,7 +119,50 @@ func main() {
 			fmt.Fprintln(os.Stderr, "rewrite:", err)
 			os.Exit(2)
 		}
-		overlay[f] = dst
+		overlay[target] = dst
+	}
+
+	if *srcTree != *repo {
+		// an edited copy: every other source file of the copy stands in for its namesake, and files
+		// the copy no longer has are hidden
+		have := map[string]bool{}
+		filepath.Walk(*srcTree, func(p string, info os.FileInfo, err error) error {
+			if err != nil {
+				return nil
+			}
+			if info.IsDir() {
+				if b := info.Name(); b == ".git" || b == "_out" {
+					return filepath.SkipDir
+				}
+				return nil
+			}
+			rel, _ := filepath.Rel(*srcTree, p)
+			if !strings.HasSuffix(p, ".go") || strings.HasSuffix(p, "_test.go") {
+				return nil
+			}
+			have[rel] = true
+			if filepath.Dir(rel) == "uhppote" {
+				return nil
+			}
+			overlay[filepath.Join(*repo, rel)] = p
+			return nil
+		})
+		filepath.Walk(*repo, func(p string, info os.FileInfo, err error) error {
+			if err != nil {
+				return nil
+			}
+			if info.IsDir() {
+				if info.Name() == ".git" {
+					return filepath.SkipDir
+				}
+				return nil
+			}
+			rel, _ := filepath.Rel(*repo, p)
+			if strings.HasSuffix(p, ".go") && !strings.HasSuffix(p, "_test.go") && !have[rel] {
+				overlay[p] = ""
+			}
+			return nil
+		})
 	}
 
 	if len(overlay) == 0 {
